@@ -41,13 +41,22 @@ RULE = ("fault cases: (seed document, single fault, entry point; entry points ru
         "one entry of an inline image dictionary inside a content stream; quick tier samples the sites "
         "(all reference faults and key removals, stratified sample of the rest), thorough enumerates all; a case "
         "is non-trivial when the faulted bytes differ from the seed and is distinct by (seed, fault, entry). "
-        "model cases: random object graphs with ill-typed values, missing objects and reference cycles")
+        "model cases: random object graphs with ill-typed values, missing objects and reference cycles; "
+        "decoder cases (round 6): RunLength/ASCIIHex/ASCII85/LZW encodings of random data, left valid or truncated / one byte "
+        "replaced, inserted or removed / random bytes, each run through the decoder and (a share) through PDFStream.decode "
+        "with one or two filters; getobj-count cases: random graphs and chains through every object ending in a value, a "
+        "missing object or a cycle")
 TRUSTED_BASE = [
     "hand model lean/PdfVerif/Model/Lenient.lean of pdftypes.resolve1/resolve_all/*_value, casting.safe_*, "
     "pdfpage.create_pages' tree walk, PDFDocument.read_xref_from's Prev/XRefStm chain, pdffont.get_widths "
     "(correspondence-checked on random object graphs every run)",
-    "components NOT modelled (parser, filters/decoders, fonts/CMap parsing, interpreter, layout, converters, "
-    "encryption) are covered by fault enumeration only, which is search and not proof",
+    "decoder theorems (round 6) are stated over lean/PdfVerif/Model/Filters.lean (C03's model of runlength.py, "
+    "ascii85.py, lzw.py and PDFStream.decode; _DECODE_ERRORS and the filter names regenerated); base64.a85decode and "
+    "binascii.unhexlify are modelled by hand there; correspondence-checked by this harness on damaged payloads every run",
+    "components NOT modelled (PS/PDF parser, object streams, fonts/CMap parsing, interpreter, layout, converters, "
+    "encryption, CCITT/Flate internals) are covered by fault enumeration only, which is search and not proof",
+    "decoder work is measured as sys.settrace line events of runlength.py / lzw.py / ascii85.py / stdlib base64.py "
+    "against linear bounds with calibrated constants (the proved statements bound the output length and the fuel)",
     "sys.monitoring LINE events of pdfminer code objects as the measure of work; harness PDF writer and fault operators",
 ]
 ASSUMPTIONS = [
@@ -427,6 +436,9 @@ def run_faults(ctx: C.Ctx) -> None:
 def replay(ctx: C.Ctx, doc: Dict[str, Any], from_corpus: bool = False) -> None:
     inp = doc.get("input", {})
     if "op" in inp:
+        from harness.props import c13_codec as K
+        if K.replay_codec(ctx, inp):
+            return
         from harness.props import c13_model as M
         M.replay_op(ctx, inp)
         return
@@ -456,6 +468,9 @@ def run_corpus(ctx: C.Ctx) -> None:
             doc = json.load(fp)
         inp = doc.get("input", {})
         if "op" in inp:
+            from harness.props import c13_codec as K
+            if K.replay_codec(ctx, inp):
+                continue
             from harness.props import c13_model as M
             M.replay_op(ctx, inp)
             continue
@@ -490,4 +505,6 @@ def run(ctx: C.Ctx) -> None:
         M = None
     if M is not None:
         M.run_model(ctx)
+    from harness.props import c13_codec as K
+    K.run_codec(ctx)
     run_faults(ctx)
